@@ -733,10 +733,12 @@ func Stack[V any](arguments ...any) col.StackLike[V] {
 	case len(source) > 0:
 		stack = class.Make()
 		var collection = notation.ParseSource(source).(col.Sequential[any])
-		// Convert the values to their real type.
+		// Convert the values to their real type.  The first value in the source
+		// is the top of the stack so the values are pushed in reverse order.
 		var iterator = collection.GetIterator()
-		for iterator.HasNext() {
-			var value = iterator.GetNext().(V)
+		iterator.ToEnd()
+		for iterator.HasPrevious() {
+			var value = iterator.GetPrevious().(V)
 			stack.AddValue(value)
 		}
 	default:
